@@ -2587,6 +2587,36 @@ func (v *View) AllStreams(ctx context.Context, f func(StreamContext) error, opti
 	return nil
 }
 
+// undecidedTagsWithSubQuery returns the tags a search with these conditions would inline (the tags
+// it references that are undecided for some stream, and the undecided tags those reference) whose
+// definition has a sub-query.
+func (v *View) undecidedTagsWithSubQuery(conditions query.ConditionsSet) []string {
+	res := []string(nil)
+	seen := map[string]struct{}{}
+	queue := []query.ConditionsSet{conditions}
+	for len(queue) != 0 {
+		f := queue[0].Features()
+		queue = queue[1:]
+		for _, tn := range append(append([]string(nil), f.MainTags...), f.SubQueryTags...) {
+			if _, ok := seen[tn]; ok {
+				continue
+			}
+			seen[tn] = struct{}{}
+			ti, ok := v.tagDetails[tn]
+			if !ok || ti.Uncertain.IsZero() {
+				continue
+			}
+			tf := ti.Conditions.Features()
+			if tf.SubQueryFeatures != 0 || len(tf.SubQueryTags) != 0 {
+				res = append(res, tn)
+				continue
+			}
+			queue = append(queue, ti.Conditions)
+		}
+	}
+	return res
+}
+
 func (v *View) SearchStreams(ctx context.Context, filter *query.Query, f func(StreamContext) error, options ...StreamsOption) (bool, uint, *index.DataRegexes, error) {
 	opts := streamsOptions{}
 	for _, o := range options {
@@ -2605,6 +2635,14 @@ func (v *View) SearchStreams(ctx context.Context, filter *query.Query, f func(St
 		limit = *filter.Limit
 	}
 	offset := opts.page * limit
+	// An undecided tag is decided on the fly by inlining its definition into the query. That cannot
+	// express a definition with a sub-query (its negation is not a set of conditions over that
+	// sub-query, and its sub-query names may collide with the query's): decide those tags first.
+	if tags := v.undecidedTagsWithSubQuery(filter.Conditions); len(tags) != 0 {
+		if err := v.prefetchTags(ctx, tags, bitmask.LongBitmask{}); err != nil {
+			return false, 0, nil, err
+		}
+	}
 	res, hasMore, dataRegexes, err := index.SearchStreams(ctx, v.indexes, nil, filter.ReferenceTime, filter.Conditions, filter.Grouping, filter.Sorting, limit, offset, v.tagDetails, v.converters, true)
 	if err != nil {
 		return false, 0, nil, err
